@@ -22,6 +22,9 @@ structure Verdict where
   tags : List String := []
   /-- free text explaining a failed predicate -/
   note : String := ""
+  /-- stable signature of a failure (what fails, not on which random input);
+      `known_findings.json` entries match on it -/
+  sig : String := ""
 
 abbrev Handler := Json → Json → Except String Verdict
 
@@ -29,7 +32,8 @@ def Verdict.toJson (v : Verdict) (i : Nat) : Json :=
   let base : List (String × Json) :=
     [("i", i), ("agree", v.agree), ("prop", v.prop), ("propModel", v.propModel),
      ("nt", v.nontrivial), ("tags", Json.arr (v.tags.map Json.str).toArray)]
-  let extra := if v.agree && v.prop then [] else [("model", v.model), ("note", Json.str v.note)]
+  let extra := if v.agree && v.prop then [] else
+    [("model", v.model), ("note", Json.str v.note), ("sig", Json.str v.sig)]
   Json.mkObj (base ++ extra)
 
 -- JSON access helpers (all total, errors as `Except String`)
@@ -57,5 +61,32 @@ def parseInt (s : String) : Except String Int :=
 
 def jStrs (xs : List String) : Json := Json.arr (xs.map Json.str).toArray
 def jBools (xs : List Bool) : Json := Json.arr (xs.map Json.bool).toArray
+
+
+/-- The driver loop shared by every `ldriver*` executable: one JSON case per
+    stdin line, one verdict per stdout line. -/
+partial def loop (handlers : List (String × Handler)) (h out : IO.FS.Stream) (i : Nat) : IO Unit := do
+  let line ← h.getLine
+  if line.isEmpty then return ()
+  let t := line.trimAscii.toString
+  if t.isEmpty then loop handlers h out i else
+  let res : Except String Verdict := do
+    let j ← Json.parse t
+    let f ← strField j "f"
+    let inp ← field j "in"
+    let o ← field j "out"
+    match handlers.lookup f with
+    | some hd => hd inp o
+    | none => throw s!"no handler for {f}"
+  match res with
+  | .ok v => out.putStrLn (v.toJson i).compress
+  | .error e => out.putStrLn (Json.mkObj [("i", i), ("error", e)]).compress
+  loop handlers h out (i + 1)
+
+def runDriver (handlers : List (String × Handler)) : IO Unit := do
+  let stdin ← IO.getStdin
+  let stdout ← IO.getStdout
+  loop handlers stdin stdout 0
+  stdout.flush
 
 end Ledger.Driver
